@@ -24,6 +24,12 @@ CHECKS = [
               "BaseException subclasses, array attributes raising on the n-th read), repeats and re-use probes; the bindings transcript is compared "
               "with the reference model after every step. Non-trivial cases are failures after >=1 tentative binding.",
          note="trusted: vf/models/dimlang.py, vf/models/pytree.py; array leaves only; observation through print_bindings and follow-up verdicts"),
+    dict(property_id="C02", level="exploration", design_ref="DESIGN.md §5 C02, §3.1",
+         technique="Hypothesis-generated call cases decided by an order-free exists-assignment solver (reference) plus a differential/metamorphic vector over parameter permutations, call styles, typecheckers, decorator spellings and dataclass __init__",
+         text="Each generated signature+shapes case is executed in up to 36 spellings (3 orders x 3 call styles x 2 checkers x 2 decorator "
+              "spellings) plus jaxtyped dataclasses; every verdict must equal the solver's and therefore each other. Focused generator modes "
+              "share one variadic / broadcast name across all arguments.",
+         note="trusted: satisfiable() and match() in vf/models/dimlang.py (cross-checked per case); typeguard 2.13.3 / beartype 0.22.9; NumPy arrays"),
 ]
 _pending = "check not built yet in this round (will be claimed once its machinery is committed)"
 NOT_APPLICABLE = [dict(property_id=f"C{i:02d}", reason=_pending) for i in range(1, 21)
